@@ -95,8 +95,10 @@ Proof.
   assert (Ht: 0 <= en - st) by lia.
   pose proof (fit_frames_spec _ _ (Some s) _ _ _ Ht Hc Hs E) as (Hn & _).
   unfold iterindices. fold (dflt c so) (dflt 0 sto) (dflt len0 eno). fold s st en.
-  destruct (st <? 0) eqn:G0; [lia|].
-  destruct (en >? len0) eqn:G1; [lia|]. destruct (st >=? en) eqn:G2; [lia|].
+  (* the range guards, in whatever way the source spells them: all false here *)
+  repeat match goal with
+  | |- context [if ?g then Err ValueError else _] => let G := fresh "G" in destruct g eqn:G; [exfalso; lia|]
+  end.
   rewrite E.
   pose proof (loop_frames (Z.to_nat n) st c s 0%nat []) as L.
   cbn [Z.of_nat] in L. rewrite Z.mul_0_l, Z.add_0_r in L.
@@ -116,9 +118,9 @@ Theorem iterindices_rejects : forall len0 c so sto eno flag,
 Proof.
   intros len0 c so sto eno flag s st en H.
   unfold iterindices. fold (dflt c so) (dflt 0 sto) (dflt len0 eno). fold s st en.
-  destruct (st <? 0) eqn:G0; [reflexivity|].
-  destruct (en >? len0) eqn:G1; [reflexivity|].
-  destruct (st >=? en) eqn:G2; [reflexivity|].
+  repeat match goal with
+  | |- context [if ?g then Err ValueError else _] => let G := fresh "G" in destruct g eqn:G; [reflexivity|]
+  end.
   rewrite fit_frames_rejects; [reflexivity|].
   right. destruct (Z.lt_ge_cases c 1) as [Hc|Hc]; [left; exact Hc|right].
   exists s. split; [reflexivity|lia].
